@@ -10,6 +10,7 @@ import (
 	"os"
 	"path"
 	"path/filepath"
+	"sort"
 	"strings"
 
 	"flamingo.me/dingo"
@@ -38,28 +39,38 @@ type c19Link struct {
 }
 
 type c19Case struct {
-	Files     []c19File `json:"files"`     // regular files below frontend/dist
-	Dirs      []string  `json:"dirs"`      // hex, directories below frontend/dist (may be empty ones)
-	Canaries  []c19File `json:"canaries"`  // files outside frontend/dist, relative to the temp root
-	OutDirs   []string  `json:"outdirs"`   // hex, directories outside frontend/dist, relative to the temp root
-	Links     []c19Link `json:"links"`     // symbolic links, created after everything else
-	Whitelist []string  `json:"whitelist"` // hex
-	Raw       string    `json:"raw"`       // hex, request target exactly as a client would send it
-	Origin    *string   `json:"origin"`    // hex; null = no Origin header
+	Files     []c19File  `json:"files"`     // regular files below frontend/dist
+	Dirs      []string   `json:"dirs"`      // hex, directories below frontend/dist (may be empty ones)
+	Canaries  []c19File  `json:"canaries"`  // files outside frontend/dist, relative to the temp root
+	OutDirs   []string   `json:"outdirs"`   // hex, directories outside frontend/dist, relative to the temp root
+	Links     []c19Link  `json:"links"`     // symbolic links, created after everything else
+	Whitelist []string   `json:"whitelist"` // hex
+	Raw       string     `json:"raw"`       // hex, request target exactly as a client would send it
+	Origin    *string    `json:"origin"`    // hex; null = no Origin header line of its own (it is sent first)
+	Method    *string    `json:"method"`    // hex; null = GET
+	Headers   [][]string `json:"headers"`   // hex (name, value): further header lines, sent in this order after Origin;
+	// may hold more Origin lines (any case of the name), preflight headers, conditional and Range headers
+}
+
+// c19Hdr is one Access-Control-* header of the response with all its values.
+type c19Hdr struct {
+	Name   string   `json:"name"`   // hex, canonical form
+	Values []string `json:"values"` // hex
 }
 
 type c19Obs struct {
-	Class    string  `json:"class"`  // ok | redirect | notfound | error | badreq | other | panic
-	Status   int     `json:"status"` // diagnostic
-	Body     string  `json:"body"`   // hex
-	Acao     *string `json:"acao"`   // hex of the first Access-Control-Allow-Origin value; null = header absent
-	AcaoN    int     `json:"acao_n"` // number of values of that header
-	Mux      string  `json:"mux"`    // pass | redirect | notfound | none: what ServeMux decided (mux.Handler)
-	Ep       string  `json:"ep"`     // hex, URL.EscapedPath() of the parsed request
-	Dec      string  `json:"dec"`    // hex, URL.Path of the parsed request (percent-decoded by net/url)
-	Clean    string  `json:"clean"`  // hex, path.Clean of the rooted decoded path (the standard library's own answer)
-	CleanRel string  `json:"clean_rel"`
-	Location string  `json:"location"` // hex, diagnostic
+	Class    string   `json:"class"`  // ok | redirect | notfound | error | badreq | partial (206) | other | panic
+	Ac       []c19Hdr `json:"ac"`     // EVERY response header whose name starts with Access-Control- (any case), sorted
+	Status   int      `json:"status"` // diagnostic
+	Body     string   `json:"body"`   // hex
+	Acao     *string  `json:"acao"`   // hex of the first Access-Control-Allow-Origin value; null = header absent
+	AcaoN    int      `json:"acao_n"` // number of values of that header
+	Mux      string   `json:"mux"`    // pass | redirect | notfound | none: what ServeMux decided (mux.Handler)
+	Ep       string   `json:"ep"`     // hex, URL.EscapedPath() of the parsed request
+	Dec      string   `json:"dec"`    // hex, URL.Path of the parsed request (percent-decoded by net/url)
+	Clean    string   `json:"clean"`  // hex, path.Clean of the rooted decoded path (the standard library's own answer)
+	CleanRel string   `json:"clean_rel"`
+	Location string   `json:"location"` // hex, diagnostic
 }
 
 type c19Site struct {
@@ -195,11 +206,21 @@ func c19Setup(c c19Case, key string) (site *c19Site, err error) {
 
 func c19Request(s *c19Site, c c19Case) (obs c19Obs) {
 	raw := unhx(c.Raw)
-	text := "GET " + raw + " HTTP/1.1\r\nHost: assets.test\r\n"
+	method := "GET"
+	if c.Method != nil {
+		method = unhx(*c.Method)
+	}
+	text := method + " " + raw + " HTTP/1.1\r\nHost: assets.test\r\n"
 	if c.Origin != nil {
 		text += "Origin: " + unhx(*c.Origin) + "\r\n"
 	}
+	for _, h := range c.Headers {
+		if len(h) == 2 {
+			text += unhx(h[0]) + ": " + unhx(h[1]) + "\r\n"
+		}
+	}
 	text += "\r\n"
+	obs.Ac = []c19Hdr{}
 	req, err := http.ReadRequest(bufio.NewReader(strings.NewReader(text)))
 	if err != nil {
 		// what net/http's server answers before any handler runs: 400
@@ -244,6 +265,8 @@ func c19Request(s *c19Site, c c19Case) (obs c19Obs) {
 		obs.Class = "error"
 	case 400:
 		obs.Class = "badreq"
+	case 206:
+		obs.Class = "partial"
 	default:
 		obs.Class = "other"
 	}
@@ -253,6 +276,20 @@ func c19Request(s *c19Site, c c19Case) (obs c19Obs) {
 	if len(vals) > 0 {
 		v := hx(vals[0])
 		obs.Acao = &v
+	}
+	var names []string
+	for k := range res.Header {
+		if strings.HasPrefix(strings.ToLower(k), "access-control-") {
+			names = append(names, k)
+		}
+	}
+	sort.Strings(names)
+	for _, k := range names {
+		h := c19Hdr{Name: hx(k), Values: []string{}}
+		for _, v := range res.Header[k] {
+			h.Values = append(h.Values, hx(v))
+		}
+		obs.Ac = append(obs.Ac, h)
 	}
 	obs.Location = hx(res.Header.Get("Location"))
 	return obs
